@@ -32,7 +32,7 @@ func (r *rng) intn(n int) int {
 	}
 	return int(r.next() % uint64(n))
 }
-func (r *rng) chance(pct int) bool { return r.intn(100) < pct }
+func (r *rng) chance(pct int) bool     { return r.intn(100) < pct }
 func (r *rng) pick(xs []string) string { return xs[r.intn(len(xs))] }
 
 func mix(seed uint64, stream string, idx int) *rng {
@@ -88,14 +88,14 @@ func rawOK(s string) bool {
 func rawTok(s string) string { return "'" + strings.Replace(s, "'", "\\'", -1) + "'" }
 
 type gen struct {
-	r       *rng
-	doc     interface{}
+	r   *rng
+	doc interface{}
 	// single: every object in the document and in generated literals has at
 	// most one member, so object-iteration order cannot be observed and
 	// iteration sources (.*, keys, values) may appear anywhere.  Otherwise
 	// they are only generated inside order-insensitive units.
-	single bool
-	budget int
+	single                bool
+	budget                int
 	noProj, noFn, noLogic bool // restrict to a fragment
 	paths                 bool // prefer document paths over literals as function arguments
 	extreme               bool // draw integers from the int64 extremes more often (typed documents)
